@@ -79,7 +79,12 @@ FORBIDDEN = '-] Forbidden [-'
 
 
 def canon_tb(tb):
-    return '~' if tb in (None, 'None') else '<tb>'
+    """None -> ~; a Python traceback -> <tb> (it names files and line numbers); anything else as is"""
+    if tb in (None, 'None'):
+        return '~'
+    if str(tb).lstrip().startswith('Traceback (most recent call last)'):
+        return '<tb>'
+    return str(tb)
 
 
 def canon_body(body):
@@ -261,6 +266,8 @@ def enc_out(out):
         return ['failjson', hs('BodyParsingError')]
     if k == 'failform':
         return ['failform', hs('BodySizeError')]
+    if k == 'failmultipart':
+        return ['failmultipart', hs('BodyParsingError')]
     raise ValueError(out)
 
 
@@ -514,7 +521,7 @@ def h_script(world, app_id, req):
         return 1 // 0
     if k == 'failjson':
         return str(rq.json)
-    if k == 'failform':
+    if k in ('failform', 'failmultipart'):
         return str(rq.forms.get('f'))
     raise ValueError(out)
 
